@@ -74,6 +74,16 @@ fn hist_cfg_for(seed: u64, m: &HashMap<String, String>) -> hist::HistCfg {
     } else {
         hist::random_opts(&mut rng)
     };
+    let mut opts = opts;
+    if let Some(mt) = m.get("memtable").and_then(|v| v.parse().ok()) {
+        opts.memtable = mt;
+    }
+    if let Some(b) = m.get("block").and_then(|v| v.parse().ok()) {
+        opts.block = b;
+    }
+    if let Some(f) = m.get("file").and_then(|v| v.parse().ok()) {
+        opts.file = f;
+    }
     hist::HistCfg {
         seed,
         nkeys: arg(m, "nkeys", rng.gen_range(3..=12)),
